@@ -119,6 +119,21 @@ def bar_rules(ctx: Ctx, explain: bool = False) -> None:
         ctx.check(got == expect, "CAP", inst + " padded length = capacity in ticks", function=FN,
                   construct="pad() length is not numerator*PPQN*4/denominator",
                   message=f"normalises to `{got.canon()}`, expected `{expect.canon()}`", file=fi.file, node=c)
+        # every bar shorter than its capacity reaches the pad call: only "duration below capacity" tests may govern it
+        from ..astutil import path_conditions
+        wrong = []
+        for t, holds in path_conditions(c):
+            if t not in compares:
+                wrong.append(f"`{short(t, 60)}` {'holds' if holds else 'does not hold'}")
+                continue
+            dl = any(isinstance(x, ast.Call) for x in ast.walk(t.left))
+            below = isinstance(t.ops[0], (ast.Lt, ast.LtE)) if dl else isinstance(t.ops[0], (ast.Gt, ast.GtE))
+            above = isinstance(t.ops[0], (ast.Gt, ast.GtE)) if dl else isinstance(t.ops[0], (ast.Lt, ast.LtE))
+            if not ((holds and below) or (not holds and above)):
+                wrong.append(f"`{short(t, 60)}` {'holds' if holds else 'does not hold'}")
+        ctx.check(not wrong, "CAP", f"{FN}: every sequence shorter than the capacity is padded", function=FN,
+                  construct="padding of a short bar depends on a condition other than `duration below capacity`",
+                  message=f"pad() is reached only when {', '.join(wrong)}: a shorter sequence outside that condition keeps its length", file=fi.file, node=c)
         # the rejection precedes the padding
         rejs = [x for x in compares if isinstance(getattr(x, "_parent", None), ast.If) and any(isinstance(s, ast.Raise) for s in x._parent.body)]
         ctx.check(bool(rejs) and all(r.lineno < c.lineno for r in rejs), "CAP", f"{FN}: capacity rejection precedes padding", function=FN,
@@ -212,6 +227,63 @@ def signature_rewrite(ctx: Ctx, fi) -> None:
                 sig_rejects.append(("count", g))
         if "numerator" in txt and "denominator" in txt and "all(" in txt and isinstance(g.test, ast.UnaryOp):
             sig_rejects.append(("uniform", g))
+    # polarity and content of the two rejection tests
+    from .c07 import _nnf
+    for kind_, g in sig_rejects:
+        leaves = list(_nnf(g.test))
+        if kind_ == "count":
+            ok_ = False
+            for leaf, neg in leaves:
+                if isinstance(leaf, ast.Compare) and isinstance(leaf.comparators[0], ast.Constant):
+                    c0, op = leaf.comparators[0].value, type(leaf.ops[0])
+                    more_than_one = (op is ast.Gt and c0 == 1) or (op is ast.GtE and c0 == 2) or (op is ast.NotEq and False)
+                    at_most_one = (op is ast.LtE and c0 == 1) or (op is ast.Lt and c0 == 2)
+                    ok_ = (more_than_one and not neg) or (at_most_one and neg)
+            ctx.check(ok_ and len(leaves) == 1, "SIG", inst + f" raises when more than one signature is present (`{short(g.test, 60)}`)", function=FN,
+                      construct="signature-count rejection fires for the wrong count", message=f"`{short(g.test, 80)}`", file=fi.file, node=g)
+        else:
+            alls = [(leaf, neg) for leaf, neg in leaves if isinstance(leaf, ast.Call) and isinstance(leaf.func, ast.Name) and leaf.func.id == "all"]
+            ok_ = len(alls) == 1 and len(leaves) == 1 and alls[0][1] is True and alls[0][0].args and isinstance(alls[0][0].args[0], ast.GeneratorExp)
+            detail = ""
+            if ok_:
+                ge = alls[0][0].args[0]
+                tv = ge.generators[0].target.id if isinstance(ge.generators[0].target, ast.Name) else None
+                inner = list(_nnf(ge.elt))
+                seen = set()
+                conj = not any(isinstance(x, ast.BoolOp) and isinstance(x.op, ast.Or) for x in ast.walk(ge.elt))
+                for leaf, neg in inner:
+                    good = isinstance(leaf, ast.Compare) and len(leaf.ops) == 1 and isinstance(leaf.ops[0], (ast.Eq, ast.NotEq)) \
+                        and (isinstance(leaf.ops[0], ast.Eq) != neg) and isinstance(leaf.left, ast.Attribute) and isinstance(leaf.left.value, ast.Name) \
+                        and leaf.left.value.id == tv and isinstance(leaf.comparators[0], ast.Attribute) and attr_chain(leaf.comparators[0])[0] == "self" \
+                        and leaf.left.attr in leaf.comparators[0].attr
+                    if good:
+                        seen.add(leaf.left.attr)
+                    else:
+                        detail += f" `{short(leaf, 50)}`"
+                ok_ = conj and seen == {"numerator", "denominator"} and not detail and not ge.generators[0].ifs
+            ctx.check(ok_, "SIG", inst + " raises iff some signature differs from the bar's in numerator or denominator", function=FN,
+                      construct="uniformity rejection does not test `every signature equals the bar's numerator and denominator`",
+                      message=f"`{short(g.test, 100)}`{'; unexpected:' + detail if detail else ''}", file=fi.file, node=g)
+    # the list the two tests look at holds exactly the TIME_SIGNATURE events of the sequence
+    tested = set()
+    for _, g in sig_rejects:
+        tested |= {x.id for x in ast.walk(g.test) if isinstance(x, ast.Name)}
+    for a in walk_local(fi.node):
+        if isinstance(a, ast.Assign) and isinstance(a.targets[0], ast.Name) and a.targets[0].id in tested and isinstance(a.value, ast.ListComp):
+            ifs = a.value.generators[0].ifs
+            okl = len(ifs) == 1 and isinstance(ifs[0], ast.Compare) and isinstance(ifs[0].ops[0], ast.Eq) \
+                and "TIME_SIGNATURE" in {enum_member(ifs[0].left, "MessageType"), enum_member(ifs[0].comparators[0], "MessageType")}
+            ctx.check(okl, "SIG", inst + f" `{a.targets[0].id}` collects the TIME_SIGNATURE events", function=FN,
+                      construct="the list tested by the signature rejections is not `the TIME_SIGNATURE events of the sequence`",
+                      message=short(a.value, 100), file=fi.file, node=a)
+    # the bar remembers the signature and key it was built with
+    stored = {t.attr: src(a.value) for a in walk_local(fi.node) if isinstance(a, ast.Assign) for t in a.targets
+              if isinstance(t, ast.Attribute) and isinstance(t.value, ast.Name) and t.value.id == "self" and isinstance(a.value, ast.Name)}
+    prm = fi.params
+    want_ = {prm[2]: None, prm[3]: None, prm[4]: None} if len(prm) >= 5 else {}
+    for pn in want_:
+        ctx.check(pn in stored.values(), "SIG", f"{FN}: parameter `{pn}` is stored on the bar", function=FN,
+                  construct="a constructor argument of Bar is not stored", message=f"stored: {stored}", file=fi.file, node=fi.node)
     kinds = {k for k, _ in sig_rejects}
     ctx.check("count" in kinds, "SIG", inst + " rejects a second signature", function=FN,
               construct="no rejection of sequences carrying more than one TIME_SIGNATURE", message="expected `if len(signatures) > 1: raise`",
